@@ -165,7 +165,14 @@ class SolveLoop:
                 if U(ff.resolved(st, a)).endswith(".z"):
                     out["path"] = recv
                 elif isinstance(a, ast.BinOp) and isinstance(a.op, ast.Add):
-                    sides = (U(a.left), U(a.right), U(ff.resolved(st, a.left)), U(ff.resolved(st, a.right)))
+                    sides = [U(a.left), U(a.right), U(ff.resolved(st, a.left)), U(ff.resolved(st, a.right))]
+                    for sd_ in (a.left, a.right):
+                        # `last = times[-1]` held in a temporary of the same iteration
+                        if isinstance(sd_, ast.Name):
+                            ds_ = [q for q in ff.order if q.index < s.index and q.loops == s.loops and isinstance(q.stmt, ast.Assign) and len(q.stmt.targets) == 1
+                                   and isinstance(q.stmt.targets[0], ast.Name) and q.stmt.targets[0].id == sd_.id]
+                            if ds_:
+                                sides.append(U(ds_[-1].stmt.value))
                     import re as _re
                     if f"{recv}[-1]" in sides or any(t.endswith("[-1]") and _re.search(r"\b" + _re.escape(recv) + r"\b", t) for t in sides):
                         out["times"] = recv
